@@ -235,3 +235,25 @@ def deep_eq(a, b, path="$"):
         return None if a == b else f"{path}: {a!r} != {b!r}"[:400]
     except Exception as e:  # noqa: BLE001
         return f"{path}: comparison raised {type(e).__name__}"
+
+
+def deep_diffs(a, b, path="$", out=None, limit=20):
+    """All differing leaf paths between two binding objects: [(path, a_value, b_value)]."""
+    out = [] if out is None else out
+    if len(out) >= limit:
+        return out
+    if dataclasses.is_dataclass(a) and not isinstance(a, type) and type(a) is type(b):
+        for f in dataclasses.fields(a):
+            deep_diffs(getattr(a, f.name), getattr(b, f.name), f"{path}.{f.name}", out, limit)
+        return out
+    if isinstance(a, (list, tuple)) and not hasattr(a, "_fields") and type(a) is type(b) and len(a) == len(b):
+        for i, (x, y) in enumerate(zip(a, b)):
+            deep_diffs(x, y, f"{path}[{i}]", out, limit)
+        return out
+    if isinstance(a, dict) and isinstance(b, dict) and set(a) == set(b):
+        for k in a:
+            deep_diffs(a[k], b[k], f"{path}[{k!r}]", out, limit)
+        return out
+    if deep_eq(a, b) is not None:
+        out.append((path, a, b))
+    return out
